@@ -327,10 +327,10 @@ common::register! {
     kf_c16_app_total_size = kf_app_total_size => 320,
     kf_c16_unknown_total_size = kf_unknown_total_size => 320,
     q_sdes_item = sdes_item => 320,
-    q_sdes_1x2 = sdes::<_, 1, 2> => 320,
-    q_sdes_2x1 = sdes::<_, 2, 1> => 320,
-    t_sdes_31x0 = sdes::<_, 31, 0> => 320,
-    t_sdes_32x0 = sdes::<_, 32, 0> => 320,
+    q_sdes_1x2 = sdes::<_, 1, 2> => 4,
+    q_sdes_2x1 = sdes::<_, 2, 1> => 4,
+    t_sdes_31x0 = sdes::<_, 31, 0> => 33,
+    t_sdes_32x0 = sdes::<_, 32, 0> => 34,
     q_fb_pli = fb::<_, 0> => 2,
     q_fb_sli = fb::<_, 1> => 3,
     q_fb_rpsi = fb::<_, 2> => 2,
@@ -342,9 +342,9 @@ common::register! {
     t_rr_1 = rr::<_, 1> => 320,
     t_bye_1 = bye::<_, 1> => 320,
     t_bye_2 = bye::<_, 2> => 320,
-    t_sdes_0 = sdes::<_, 0, 0> => 320,
-    t_sdes_1x3 = sdes::<_, 1, 3> => 320,
-    t_sdes_2x2 = sdes::<_, 2, 2> => 320,
+    t_sdes_0 = sdes::<_, 0, 0> => 2,
+    t_sdes_1x3 = sdes::<_, 1, 3> => 5,
+    t_sdes_2x2 = sdes::<_, 2, 2> => 4,
 }
 
 common::register_hashmap! {
